@@ -34,6 +34,7 @@ SPEC = dict(
          "string, empty string, binary, integer, nil, bool, float) of the configured trace-ID and parent-ID fields, meta.trace_id, "
          "meta.signal_type, occasionally meta.refinery.root / probe / other reserved fields, repeated keys and filler fields; "
          "about a quarter of the spans are also re-encoded and sent to a peer-type router; "
+         "events also carry field names that differ only in letter case from a configured sampling-key / trace-ID / parent-ID field name, alone and next to the exact name in both orders; "
          "non-trivial = contains an event with at least two of {configured trace-ID/parent-ID fields, meta.trace_id, meta.signal_type}; "
          "distinct by transcript hash",
     trusted_base=["tinylib/msgp (msgpack reading), valyala/fastjson and json-iterator (JSON reading): byte level not modelled, "
